@@ -62,6 +62,19 @@
 (*      read `app_settings` afterwards; component_registry.py: "we always  *)
 (*      take the latest value from Django's settings".                     *)
 (*                                                                         *)
+(*  D14 django_components.get_component_dirs (docs/reference/api.md):        *)
+(*      "get_component_dirs() searches for dirs set in COMPONENTS.dirs     *)
+(*      settings. If none set, defaults to searching for a "components"    *)
+(*      app. In addition to that, also all installed Django apps are       *)
+(*      checked whether they contain directories as set in                 *)
+(*      COMPONENTS.app_dirs (e.g. [app]/components). Notes: - Paths that   *)
+(*      do not point to directories are ignored. [...] - The paths in      *)
+(*      COMPONENTS.dirs must be absolute paths."; `include_apps`: "Include *)
+(*      directories from installed Django apps."; dirs entries may be      *)
+(*      (prefix, path) tuples "same as with STATICFILES_DIRS"; a relative  *)
+(*      path is a ValueError (tests/test_loader.py                         *)
+(*      test_get_dirs__componenents_dirs__raises_on_relative_path_1/2).    *)
+(*                                                                         *)
 (* Values are typed records of one uniform shape (TLC must never compare   *)
 (* an int with a string):  [t, b, i, s, l]  with t the tag.  List items    *)
 (* are strings; the harness maps the prefixes "path:" (a pathlib.Path)     *)
@@ -76,7 +89,7 @@
 (*   - whether an invalid global context_behavior is reported to a         *)
 (*     registry that has its own context_behavior                          *)
 (***************************************************************************)
-EXTENDS Integers, Sequences, FiniteSets
+EXTENDS Integers, Sequences, FiniteSets, SequencesExt
 
 (* ---- typed values ------------------------------------------------------ *)
 V(t, b, i, s, l) == [t |-> t, b |-> b, i |-> i, s |-> s, l |-> l]
@@ -204,6 +217,41 @@ CachedAfter(u, form, base, n) == {CachedAfterOne(n, bd) : bd \in Adm(u, form, ba
 \* D9: context behaviour of a registry created without own context_behavior
 FreshRegistryBehavior(u, form, base) == RegAdm(u, form, base, "context_behavior", Absent, Absent)
 
+(* ---- component directories: get_component_dirs() (D14) ------------------ *)
+\* The world: fs = the set of existing DIRECTORIES (absolute path strings), apps = the root
+\* directories of the installed apps.  A dirs item is a path string, "path:<p>" (a pathlib.Path)
+\* or "tuple:<prefix>:<p>"; paths contain no colon.
+Ch(s, i) == SubSeq(s, i, i)
+PathOf(item) ==
+  IF \E i \in 1..Len(item) : Ch(item, i) = ":"
+  THEN LET c == CHOOSE i \in 1..Len(item) : Ch(item, i) = ":" /\ \A j \in (i+1)..Len(item) : Ch(item, j) # ":"
+       IN SubSeq(item, c + 1, Len(item))
+  ELSE item
+IsAbs(p) == Len(p) > 0 /\ Ch(p, 1) = "/"
+ItemsOf(v) == {v.l[i] : i \in DOMAIN v.l}
+DirsVal(ps) == V("dirs", FALSE, 0, "", SetToSeq(ps))      \* a result: a SET of directories
+HasRelative(d) == \E it \in ItemsOf(d) : ~IsAbs(PathOf(it))
+AppDirsIn(ad, fs, apps) == {a \o "/" \o x : a \in apps, x \in ItemsOf(ad)} \cap fs
+DirsOne(d, ad, fs, apps, inc) ==
+  IF HasRelative(d) THEN Err("ValueError")
+  ELSE DirsVal(({PathOf(it) : it \in ItemsOf(d)} \cap fs)              \* "not directories are ignored"
+               \cup (IF inc THEN AppDirsIn(ad, fs, apps) ELSE {}))
+ComponentDirs(u, form, base, fs, apps, inc) ==
+  {DirsOne(d, ad, fs, apps, inc) : d \in Adm(u, form, base, "dirs"), ad \in Adm(u, form, base, "app_dirs")}
+\* a start-up that looks for component files may report a relative path
+DirsMayFail(u, form, base) == \E d \in Adm(u, form, base, "dirs") : HasRelative(d)
+
+\* Known deviation (classification only): entries of COMPONENTS.dirs are returned whether they
+\* exist or not (only the app-level directories are checked).
+DevDirsOne(d, ad, fs, apps, inc) ==
+  IF HasRelative(d) THEN Err("ValueError")
+  ELSE DirsVal({PathOf(it) : it \in ItemsOf(d)} \cup (IF inc THEN AppDirsIn(ad, fs, apps) ELSE {}))
+DevComponentDirs(u, form, base, fs, apps, inc) ==
+  {DevDirsOne(d, ad, fs, apps, inc) : d \in Adm(u, form, base, "dirs"), ad \in Adm(u, form, base, "app_dirs")}
+DevDirsKey(u, form, base, fs) ==
+  IF \E d \in Adm(u, form, base, "dirs") : ~HasRelative(d) /\ \E it \in ItemsOf(d) : PathOf(it) \notin fs
+  THEN "dirs-entry-not-a-directory" ELSE ""
+
 (* ---- the known deviation: an explicit None is taken for "not given" ---- *)
 \* The implementation resolves every key as `value if value is not None else default`, so
 \* {"template_cache_size": None} yields the default limit instead of "no limit" (D7).  This part
@@ -239,6 +287,8 @@ Load(u, f) == /\ WellFormed(u, f) /\ user' = u /\ form' = f /\ ret' = {} /\ UNCH
 Read(k)    == /\ ret' = Adm(user, form, base, k) /\ UNCHANGED <<user, form, base>>
 RegRead(k, own, old) ==
               /\ ret' = RegAdm(user, form, base, k, own, old) /\ UNCHANGED <<user, form, base>>
+CompDirs(fs, apps, inc) ==
+              /\ ret' = ComponentDirs(user, form, base, fs, apps, inc) /\ UNCHANGED <<user, form, base>>
 
 (* ---- theorems (checked by TLC on every reachable state) ---------------- *)
 \* D1/D3: nothing given -> every accessor is exactly its documented default
@@ -265,6 +315,17 @@ ContextBehaviorClosed == \A x \in Adm(user, form, base, "context_behavior") :
 AliasEquivalent == \A k \in Accessors : LET old == OldNameOf(k) IN
    (old # "" /\ Given(user, old) /\ ~Given(user, k)) =>
       Adm(user, form, base, k) = Adm([user EXCEPT ![k] = user[old], ![old] = Absent], form, base, k)
+\* D14: only existing directories are answered; without apps only COMPONENTS.dirs counts; an empty
+\* dirs list with include_apps = FALSE answers nothing
+DirsTheorems(fs, apps) ==
+  /\ \A inc \in BOOLEAN : \A r \in ComponentDirs(user, form, base, fs, apps, inc) :
+        r.t = "dirs" => ItemsOf(r) \subseteq fs
+  /\ \A r \in ComponentDirs(user, form, base, fs, apps, FALSE) : \A d \in Adm(user, form, base, "dirs") :
+        (r.t = "dirs" /\ Determined(user, form, base, "dirs")) => ItemsOf(r) \subseteq {PathOf(it) : it \in ItemsOf(d)}
+  /\ (Adm(user, form, base, "dirs") = {L(<<>>)}) => ComponentDirs(user, form, base, fs, apps, FALSE) = {DirsVal({})}
+  /\ \A r \in ComponentDirs(user, form, base, fs, apps, FALSE) :
+        \A r2 \in ComponentDirs(user, form, base, fs, apps, TRUE) :
+          (r.t = "dirs" /\ r2.t = "dirs" /\ Determined(user, form, base, "dirs")) => ItemsOf(r) \subseteq ItemsOf(r2)
 \* a change of key k is visible only through the accessor of k (action property)
 Locality(k) == \A a \in Accessors \ Affects(k) : Adm(user', form', base', a) = Adm(user, form, base, a)
 =============================================================================
